@@ -202,6 +202,7 @@ func (s *setupWorker) setup(ctx context.Context, m transport.Metadata) error {
 	}
 	L(ctx).Debug("session metadata created")
 	s.local.Create(session.ID(), session)
+	session.ExtendDeadline()
 	worker := &connectionWorker{
 		decoder: decoder.New(),
 		manager: s.manager,
